@@ -76,6 +76,7 @@ type Enc struct {
 	initUnit      bool
 	preserved     []modTarget // state preserved across unbounded-frame calls (kind loc or elems)
 	deferredPres  []deferredPreserve
+	lemmasUsed    map[string]bool
 	curCall       *ssa.CallCommon // the call being encoded (for modifies targets resolved at the call site)
 	absRecv       Val             // refinement check: the receiver whose interface-level ghost fields are abstracted
 	absRecvBoxed  Val             // the same receiver as reached through the interface value (payload of the boxed receiver)
@@ -201,7 +202,7 @@ type loopInfo struct {
 
 func NewEnc(p *Prog, unit string) *Enc {
 	return &Enc{P: p, Unit: unit, declSet: map[string]bool{}, base: map[string]Val{}, names: map[string]int{},
-		assumedUsed: map[string]bool{}, unspecExtern: map[string]bool{}, abstractions: map[string]bool{}, inlined: map[string]bool{}, ghostVarsUsed: map[string]bool{}, contractsUsed: map[string]bool{}, initFactsDone: map[string]bool{}, revealed: map[string]bool{}, revealDone: map[string]bool{}}
+		assumedUsed: map[string]bool{}, unspecExtern: map[string]bool{}, abstractions: map[string]bool{}, inlined: map[string]bool{}, ghostVarsUsed: map[string]bool{}, contractsUsed: map[string]bool{}, initFactsDone: map[string]bool{}, revealed: map[string]bool{}, revealDone: map[string]bool{}, lemmasUsed: map[string]bool{}}
 }
 
 func (e *Enc) fresh(prefix string, s Sort) Val {
